@@ -32,6 +32,11 @@ type SimplePage struct {
 	// Unreadable: the page's content stream claims /FlateDecode but holds no
 	// zlib data: the page exists (it counts, it has a box) but cannot be extracted
 	Unreadable bool
+	// GhostContent: the items are shown in one text object with relative moves
+	// (Td), written as two content streams, and the /Contents array holds a
+	// reference to an object the file does not have between the two
+	// ([A ghost B]; ISO 32000-1 7.3.10: such a reference reads as null)
+	GhostContent bool
 }
 
 // SimplePDF writes a plain single-revision PDF (classic xref, direct lengths,
@@ -68,14 +73,41 @@ func SimplePDF(pages []SimplePage) []byte {
 			}
 			fmt.Fprintf(&sb, "BT /%s %s Tf 1 0 0 %s %s %s Tm %s Tj ET\n", font, fnum(it.Size), d, fnum(it.X), fnum(it.Y), e.Buf.String())
 		}
+		var contents any = Ref{ck}
+		var ghostObjs []RevObj
+		if p.GhostContent && len(p.Items) >= 2 {
+			var a, b strings.Builder
+			px, py := 0.0, 0.0
+			for k, it := range p.Items {
+				w := &a
+				if k >= len(p.Items)/2 {
+					w = &b
+				}
+				e := &Enc{NoFields: true}
+				e.str(Str{B: []byte(it.Text)})
+				if k == 0 {
+					fmt.Fprintf(w, "BT /F1 %s Tf\n", fnum(it.Size))
+				}
+				fmt.Fprintf(w, "%s %s Td %s Tj\n", fnum(it.X-px), fnum(it.Y-py), e.Buf.String())
+				px, py = it.X, it.Y
+			}
+			b.WriteString("ET\n")
+			gk, bk := fmt.Sprintf("ghostc%d", i), fmt.Sprintf("c%db", i)
+			f.Bind(gk, next(), 0)
+			ghostObjs = append(ghostObjs, RevObj{Key: bk, Num: next(), Obj: &Stream{Raw: []byte(b.String()), LenMode: "direct"}})
+			sb.Reset()
+			sb.WriteString(a.String())
+			contents = Arr{Ref{ck}, Ref{gk}, Ref{bk}}
+		}
 		extra := Dict{}
 		if p.UserUnit != 0 {
 			extra = append(extra, KV{"UserUnit", p.UserUnit})
 		}
 		objs = append(objs,
 			RevObj{Key: pk, Num: pn, Obj: append(Dict{{"Type", Name("Page")}, {"Parent", Ref{"root"}}, {"MediaBox", boxOf(i, p, &objs, next)},
-				{"Resources", Dict{{"Font", Dict{{"F1", Ref{"f1"}}, {"F2", Ref{"f2"}}}}}}, {"Contents", Ref{ck}}}, extra...)},
+				{"Resources", Dict{{"Font", Dict{{"F1", Ref{"f1"}}, {"F2", Ref{"f2"}}}}}}, {"Contents", contents}}, extra...)},
 			RevObj{Key: ck, Num: cn, Obj: contentStream(p, sb.String())})
+		objs = append(objs, ghostObjs...)
 		kids = append(kids, Ref{pk})
 	}
 	head := []RevObj{
